@@ -94,6 +94,13 @@ func (c *codegen) call(x *ast.CallExpr, want gtype) (string, gtype) {
 		}
 		return c.callFn(k, "", x)
 	case *ast.SelectorExpr:
+		if sk, srecv, isSP := c.spCalleeOf(x); isSP { // code_opq.go
+			vals, types := c.spCall(sk, srecv, x, false)
+			if len(vals) != 1 {
+				c.fail(x, "call of %s, which has %d results, used as a value", sk.goName(), len(vals))
+			}
+			return vals[0], types[0]
+		}
 		if id, ok := f.X.(*ast.Ident); ok && c.lookup(id.Name) == nil {
 			q := id.Name + "." + f.Sel.Name
 			switch q {
@@ -1120,6 +1127,10 @@ func (c *codegen) exprStmt(x *ast.ExprStmt) []string {
 	call, ok := x.X.(*ast.CallExpr)
 	if !ok {
 		c.fail(x, "expression statement %s", c.src(x.X))
+	}
+	if sk, srecv, isSP := c.spCalleeOf(call); isSP { // code_opq.go: the results are dropped, the effect is in the hoisted lines
+		c.spCall(sk, srecv, call, true)
+		return nil
 	}
 	switch f := call.Fun.(type) {
 	case *ast.Ident:
